@@ -354,7 +354,8 @@ class Decoder:
         Decode RdfLiteral to literal based on custom adapter implementation.
 
         Notes: checks for langtag existence;
-               for datatype checks for non-zero table size and datatype field presence
+               for datatype checks for datatype field presence (a reference while
+               the datatype table is disabled is an error)
 
         Args:
             literal (jelly.RdfLiteral): RdfLiteral message
@@ -366,7 +367,7 @@ class Decoder:
         language = datatype = None
         if literal.langtag:
             language = literal.langtag
-        elif self.datatypes.lookup_size and literal.HasField("datatype"):
+        elif literal.HasField("datatype"):
             datatype = self.datatypes.decode_datatype_term_index(literal.datatype)
         return self.adapter.literal(
             lex=literal.lex,
